@@ -127,6 +127,16 @@ func dischargeAll(opts Options, outDir string, obls []*Obligation) []Discharged 
 		}
 		d.V.Seconds += v.Seconds
 		d.V.Bytes += v.Bytes
+		if obls[j.parent].Cover {
+			// a reachability obligation split per return point holds as soon as one of them is reachable
+			crank := map[string]int{"": 0, "vacuous": 1, "undecided": 2, "proved": 3}
+			if crank[v.Status] > crank[d.V.Status] {
+				secs, bytes := d.V.Seconds, d.V.Bytes
+				d.V = v
+				d.V.Seconds, d.V.Bytes = secs, bytes
+			}
+			continue
+		}
 		if rank[v.Status] > rank[d.V.Status] {
 			secs, bytes := d.V.Seconds, d.V.Bytes
 			d.V = v
